@@ -222,6 +222,11 @@ func visitInstr(fr *frame, instr ssa.Instruction) continuation {
 		} else if se, ok := x.(*symElem); ok && instr.Op == token.MUL {
 			fr.env[instr] = i.loadSymElem(se)
 		} else {
+			if i.trace != nil && i.trace.recAcc && instr.Op == token.MUL {
+				if p, ok := x.(*value); ok {
+					i.noteRead(instr.Type(), p)
+				}
+			}
 			fr.env[instr] = unop(instr, x)
 		}
 
